@@ -460,3 +460,79 @@ def wamp_octets(sid, msg):
 
 def wamp_decode(sid, octets, binary=None):
     return serializer(sid).unserialize(octets, binary)
+
+
+# ---------------------------------------------------------------------------
+# scripted router at octet level (for a real ApplicationSession on a real transport)
+# ---------------------------------------------------------------------------
+class Router:
+    """the harness as a WAMP router behind the reference framing: serializes the messages it
+    sends with a fresh autobahn serializer, frames them with ref/, parses everything the
+    endpoint writes with the reference framing and decodes the payloads"""
+
+    def __init__(self, ep, sid):
+        self.ep = ep
+        self.sid = sid
+        self.ser = serializer(sid)
+        self.rx = []            # marshalled messages received from the endpoint, in order
+        self.wire_errors = []
+        self.closes = []
+        self._buf = b""
+
+    def frames(self, msgs):
+        out = []
+        for m in msgs:
+            o, b = self.ser.serialize(m)
+            out.append(self.ep.peer_frame(o, b))
+        return out
+
+    def send(self, *msgs, coalesce=True):
+        fr = self.frames(msgs)
+        if coalesce:
+            ok = self.ep.feed(b"".join(fr))
+        else:
+            ok = True
+            for f in fr:
+                ok = self.ep.feed(f) and ok
+        self.ep.settle()
+        return ok
+
+    def read(self):
+        """decode what the endpoint wrote since the last call -> list of new marshalled messages"""
+        self._buf += self.ep.take()
+        new = []
+        if self.ep.kind == "rs":
+            from ref import rawsocket as R
+            frames, used = R.parse_frames(self._buf)
+            payloads = [(f.payload, None) for f in frames if f.ftype == 0]
+            for f in frames:
+                if f.ftype != 0 or f.reserved_bits:
+                    self.wire_errors.append("frame type %d rsv %d" % (f.ftype, f.reserved_bits))
+            self._buf = self._buf[used:]
+        else:
+            from ref import ws_frames as F
+            frames, used = F.parse_frames(self._buf)
+            errs, msgs, ctrls, _ = F.check_sender_stream(self._buf[:used], True)
+            self.wire_errors += errs
+            payloads = [(p, b) for (p, b, _) in msgs]
+            self.closes += [p for (op, p, _) in ctrls if op == 8]
+            self._buf = self._buf[used:]
+        for p, b in payloads:
+            if b is not None and b != is_binary(self.sid):
+                self.wire_errors.append("frame type does not match serializer %s" % self.sid)
+            try:
+                for m in self.ser.unserialize(p, b):
+                    new.append(m.marshal())
+            except Exception as e:
+                self.wire_errors.append("undecodable payload: %r" % (e,))
+        self.rx += new
+        return new
+
+
+def open_session_endpoint(kind, sid, plan, peer_exp=15, ws_opts=None, role="client"):
+    """real ApplicationSession on a real transport, attached after a real handshake against the
+    reference peer -> (endpoint, router, session)"""
+    maker = SessionMaker("real", plan)
+    ep = open_endpoint(kind, role, sid, maker=maker, peer_exp=peer_exp, ws_opts=ws_opts)
+    rt = Router(ep, sid)
+    return ep, rt, maker.sessions[0]
